@@ -41,6 +41,7 @@ var detTypes = map[string]string{
 	"o": "{\n  \"p\": 1, // {or: [{type: \"@n5\"}, {type: \"string\"}]}\n  \"q\": 5 // {or: [{type: \"integer\", min: 9}, {type: \"string\"}]}\n}",
 	"x": "{\n  \"p\": 1, // {min: 2}\n  \"q\": \"s\" // {maxLength: 0}\n}",
 	"g": "{ // {allOf: \"@a\"}\n  \"gk\": 1\n}",
+	"f": `"123e4567-e89b-12d3-a456-426614174000" // {type: "uuid", minLength: 2, maxLength: 256, regex: "^1"}`,
 }
 
 func detRoot(root string, types []string) string {
